@@ -14,7 +14,7 @@ let c01_op (decls : e2_item list) ((name, a) as it : e2_item) : mop op option =
   let kind i = (match List.nth_opt decls (int_of_z i) with
                 | Some ("mutex", _) | Some ("seq_mutex", _) -> 1 | Some ("rmutex", _) -> 2 | _ -> 0) in
   let i = e2_arg a 0 z0 in
-  let skip = Some (OCore (OState (nat_of_int 1000000))) in   (* a core op that is SKIPPED (-2/0) *)
+  let skip = Some (OCore (OState (nat_of_int 99))) in   (* a core op that is SKIPPED (-2/0) *)
   let obj k f = if BigZ.sign (big_of_z i) >= 0 && kind i = k then Some (OUser (f (e2_nat i))) else skip in
   match name with
   | "lock" -> obj 1 (fun m -> MLock (m, e2_u64 (e2_arg a 1 z0)))
